@@ -1,12 +1,13 @@
 import SynKitModel.Deficiency
 import SynKitProofs.NetGraphAlg
 import SynKitProofs.DeficiencyLemmas
+import SynKitProofs.DeficiencyRank
 import Mathlib.LinearAlgebra.Matrix.Rank
 /-!
 # C19 — complexes, linkage classes and deficiency follow their definitions
 
-Property theorems only; helper lemmas live in `SynKitProofs/DeficiencyLemmas.lean` and
-`SynKitProofs/NetGraphAlg.lean`.
+Property theorems only; helper lemmas live in `SynKitProofs/DeficiencyLemmas.lean`,
+`SynKitProofs/DeficiencyRank.lean` (the rank arguments) and `SynKitProofs/NetGraphAlg.lean`.
 
 A complex is the coefficient vector over the species order (`vecOf`), which for a well-formed
 network (`Net.Wf`: every label of a reaction is a species) is the multiset of the side.
@@ -93,12 +94,13 @@ noncomputable def classMatrix (N : Net) (C : List Nat) :
   Matrix.of fun i j => ((((classDiffs N C).getD j []).getD i 0 : Int) : ℚ)
 
 /-- **C19 at full strength** (model level).  The first four clauses are `complexes_spec`,
-`linkage_spec`, `weakrev_spec`, `deficiency_formula` (proved above for all networks).  The last
-two — `δ ≥ 0` and `Σ δ_ℓ ≤ δ` with the exact ranks — are NOT proved here: they need
-`rank S ≤ n − ℓ` (every column `y′ − y` of `S` lies in the span of the `n − ℓ` vectors
-`yᵢ − y_rep(i)`) and `rank S ≤ Σ s_ℓ` (column space of `S` = sum of the class spans), i.e. a
-`Matrix.rank`/`Submodule.span` argument over the complex graph.  The harness checks both
-inequalities with exact rational ranks on every generated network. -/
+`linkage_spec`, `weakrev_spec`, `deficiency_formula`.  The last two — `δ ≥ 0` and `Σ δ_ℓ ≤ δ` with
+the exact ranks (`Matrix.rank` over ℚ of the matrices the model builds) — are
+`deficiency_nonneg` and `linkage_deficiency_sum_le` below; they rest on `rank S ≤ n − ℓ` (every
+column `y′ − y` of `S` lies in the span of the `n − ℓ` vectors `yᵢ − y_rep(i)`) and
+`rank S ≤ Σ s_ℓ` (the column space of `S` lies in the join of the class spans), proved in
+`SynKitProofs/DeficiencyRank.lean`.  The whole statement is `C19.full`.  The harness supplies the
+exact rational ranks and checks the implementation's numbers against them. -/
 def FullStatement : Prop :=
   ∀ N : Net, N.species ≠ [] → N.reactions ≠ [] →
     ((complexes N).Nodup ∧ ∀ v, v ∈ complexes N ↔ ∃ r ∈ N.reactions, v = vecOf N r.reactants ∨ v = vecOf N r.products) ∧
@@ -111,7 +113,7 @@ def FullStatement : Prop :=
         0 ≤ s.deficiency ∧
         (linkageDeficiencies N ((linkageClasses N).map fun C => (classMatrix N C).rank)).sum ≤ s.deficiency)
 
-/-- Everything of `FullStatement` except the two inequalities. -/
+/-- Everything of `FullStatement` except the two inequalities (kept; `full` below proves all of it). -/
 theorem fullStatement_partial (N : Net) (hs : N.species ≠ []) (hr : N.reactions ≠ []) :
     ((complexes N).Nodup ∧ ∀ v, v ∈ complexes N ↔ ∃ r ∈ N.reactions, v = vecOf N r.reactants ∨ v = vecOf N r.products) ∧
     (∀ i j, i < (complexes N).length → j < (complexes N).length →
@@ -130,6 +132,47 @@ theorem fullStatement_partial (N : Net) (hs : N.species ≠ []) (hr : N.reaction
       | cons _ _ => rfl
   exact ⟨_, by unfold computeSummary; rw [this]; rfl, rfl⟩
 
+/-- **C19, rank bound behind `δ ≥ 0`.** The exact rank of the stoichiometric matrix is at most
+`n − ℓ` (number of complexes minus number of linkage classes), and `ℓ ≤ n`. -/
+theorem stoich_rank_le (N : Net) :
+    (stoichMatrix N).rank ≤ (complexes N).length - (linkageClasses N).length ∧
+    (linkageClasses N).length ≤ (complexes N).length :=
+  ⟨rank_stoich_le N, linkage_le_complexes N⟩
+
+/-- **C19, rank bound behind `Σ δ_ℓ ≤ δ`.** The exact rank of the stoichiometric matrix is at most
+the sum over the linkage classes of the exact ranks of their difference vectors. -/
+theorem stoich_rank_le_sum_class_ranks (N : Net) :
+    (stoichMatrix N).rank ≤ ((linkageClasses N).map fun C => (classMatrix N C).rank).sum :=
+  rank_stoich_le_sum N
+
+/-- **C19, the deficiency is never negative**: whenever `compute_summary` returns (with the exact
+rank of the stoichiometric matrix supplied), `δ = n − ℓ − rank S ≥ 0`. -/
+theorem deficiency_nonneg (N : Net) (s : Summary)
+    (h : computeSummary N (stoichMatrix N).rank = .ok s) : 0 ≤ s.deficiency := by
+  obtain ⟨h1, h2, _, h4, _⟩ := deficiency_formula N _ s h
+  obtain ⟨hr, hl⟩ := stoich_rank_le N
+  rw [h4, h1, h2]
+  omega
+
+/-- **C19, the linkage-class deficiencies never sum to more than the network deficiency**: with the
+exact class ranks `s_ℓ` and the exact rank of `S` supplied, `Σ (n_ℓ − 1 − s_ℓ) ≤ n − ℓ − rank S`. -/
+theorem linkage_deficiency_sum_le (N : Net) (s : Summary)
+    (h : computeSummary N (stoichMatrix N).rank = .ok s) :
+    (linkageDeficiencies N ((linkageClasses N).map fun C => (classMatrix N C).rank)).sum ≤ s.deficiency := by
+  obtain ⟨h1, h2, _, h4, _⟩ := deficiency_formula N _ s h
+  have hsum := stoich_rank_le_sum_class_ranks N
+  rw [h4, h1, h2, sum_linkageDeficiencies N (fun C => (classMatrix N C).rank)]
+  have : ((stoichMatrix N).rank : Int) ≤
+      ((((linkageClasses N).map fun C => (classMatrix N C).rank).sum : Nat) : Int) := by exact_mod_cast hsum
+  omega
+
+/-- **C19 at full strength**: every clause of `FullStatement`, for every network with at least one
+species and one reaction (the others are the `ValueError` branch, `summary_error_iff`). -/
+theorem full : FullStatement := by
+  intro N hs hr
+  obtain ⟨c1, c2, c3, s, hs1, hs2⟩ := fullStatement_partial N hs hr
+  exact ⟨c1, c2, c3, s, hs1, hs2, deficiency_nonneg N s hs1, linkage_deficiency_sum_le N s hs1⟩
+
 /-! ### non-vacuity and the defect witness (evaluations are in `SynKitModel/Deficiency.lean`) -/
 
 /-- `A + B ⇌ C`: two complexes, one class, weakly reversible, δ = 2 − 1 − 1 = 0. -/
@@ -139,6 +182,18 @@ example : complexes exF16 = [[1, 1, 0], [0, 0, 1]] ∧ complexArcs exF16 = [(0, 
 
 example : ∀ C ∈ linkageClasses exF16, ∀ u ∈ C, ∀ v ∈ C, Reach (restrict (complexArcs exF16) C) u v :=
   (weakrev_spec exF16).1 exF16_repaired.2.2.2.1
+
+/-- The hypotheses of `deficiency_nonneg` / `linkage_deficiency_sum_le` / `full` are satisfiable:
+`A + B ⇌ C` has species and reactions, so the summary exists; there `n − ℓ = 1`, so the theorems say
+`rank S ≤ 1`, `0 ≤ δ` and `Σ δ_ℓ ≤ δ` for its one linkage class `[0, 1]`. -/
+example : ∃ s, computeSummary exF16 (stoichMatrix exF16).rank = .ok s ∧ 0 ≤ s.deficiency ∧
+    (linkageDeficiencies exF16 ((linkageClasses exF16).map fun C => (classMatrix exF16 C).rank)).sum ≤ s.deficiency := by
+  obtain ⟨_, _, _, s, h1, _, h3, h4⟩ := full exF16 (by decide) (by decide)
+  exact ⟨s, h1, h3, h4⟩
+
+example : (stoichMatrix exF16).rank ≤ 1 := by
+  have := (stoich_rank_le exF16).1
+  rwa [show (complexes exF16).length - (linkageClasses exF16).length = 1 by decide] at this
 
 /-- Negation witness against the code before fix 0002: it lists the zero vector, which is neither
 side of any reaction of `A + B ⇌ C`, so `complexes_spec` fails for it. -/
